@@ -554,7 +554,7 @@ func run(c *tcase) (o outcome) {
 		for _, e := range es {
 			tail = append(tail, sim.DescribeEntry(e))
 		}
-		o.hung = fmt.Sprintf("case did not finish within 90 s; log:\n    %s\n  last RPCs:\n    %s", strings.Join(w.Log, "\n    "), strings.Join(tail, "\n    "))
+		o.hung = fmt.Sprintf("case did not finish within 90 s; log:\n    %s\n  last RPCs:\n    %s\n  goroutines:\n%s", strings.Join(w.Log, "\n    "), strings.Join(tail, "\n    "), sim.GoroutineDump())
 		return
 	}
 	o.log = w.Log
